@@ -263,6 +263,7 @@ type script struct {
 	Class     string `json:"class"`
 	MaxPart   int    `json:"max_participants,omitempty"`
 	Threshold int    `json:"threshold,omitempty"`
+	ProcessingMs int `json:"processing_timeout_ms"`
 	Steps     []step `json:"steps"`
 }
 
@@ -272,12 +273,13 @@ type world struct {
 }
 
 type sender struct {
-	w       *world
-	headers map[string]string
+	w          *world
+	headers    map[string]string
+	processing time.Duration
 }
 
 func (s *sender) GetProcessingTimeout(chainlib.ChainMessage) (time.Duration, time.Duration) {
-	return processingTimeout, relayTimeout
+	return s.processing, relayTimeout
 }
 func (s *sender) GetChainIdAndApiInterface() (string, string) { return "LAV1", "rest" }
 func (s *sender) ParseRelay(ctx context.Context, url, req, connectionType, dappID, consumerIp string, metadata []pairingtypes.Metadata) (chainlib.ProtocolMessage, error) {
@@ -478,7 +480,7 @@ type runResult struct {
 // only reader of the instruction channel is the parked consumer loop and the only reader of the batch-update
 // channel is the parked main loop: a cyclic wait that no timer can resolve. Without that proof the expiry
 // is a plain watchdog (inconclusive).
-func updateBatch(sm relaycore.RelayStateMachine, mon *monitor, batchCap int, err error) (returned bool, deadlock, sig string) {
+func updateBatch(sm relaycore.RelayStateMachine, mon *monitor, batchCap int, procT time.Duration, err error) (returned bool, deadlock, sig string) {
 	done := make(chan struct{})
 	mon.mu.Lock()
 	mon.updateCalls++
@@ -487,7 +489,7 @@ func updateBatch(sm relaycore.RelayStateMachine, mon *monitor, batchCap int, err
 	select {
 	case <-done:
 		return true, "", ""
-	case <-time.After(processingTimeout + watchdogExtra):
+	case <-time.After(procT + watchdogExtra):
 	}
 	type sample struct{ events, recv, queued, inCh int }
 	take := func() sample {
@@ -544,7 +546,7 @@ func updateBatch(sm relaycore.RelayStateMachine, mon *monitor, batchCap int, err
 	if !ok {
 		return false, "", ""
 	}
-	state := fmt.Sprintf("frozen state: consumer loop parked in UpdateBatch for > %v; instruction channel full (%d/%d); no state-machine callback and no instruction movement over 3 samples", processingTimeout+watchdogExtra, prev.inCh, cap(mon.ch))
+	state := fmt.Sprintf("frozen state: consumer loop parked in UpdateBatch for > %v; instruction channel full (%d/%d); no state-machine callback and no instruction movement over 3 samples", procT+watchdogExtra, prev.inCh, cap(mon.ch))
 	if mon.hasPolicyWrap {
 		state += fmt.Sprintf("; batch updates enqueued and not processed by the main loop: %d (channel capacity %d)", prev.queued, batchCap)
 	}
@@ -591,7 +593,8 @@ func (w *world) runScript(sc script) *runResult {
 		rr.harnessErr = err
 		return rr
 	}
-	snd := &sender{w: w, headers: headers}
+	procT := time.Duration(sc.ProcessingMs) * time.Millisecond
+	snd := &sender{w: w, headers: headers, processing: procT}
 	used := lavasession.NewUsedProviders(pm)
 	used.SetChainID("LAV1")
 	used.SetEligibilityFunc(relaypolicy.DecideEligibility)
@@ -625,7 +628,7 @@ func (w *world) runScript(sc script) *runResult {
 	mon.mu.Unlock()
 
 	start := time.Now()
-	deadline := start.Add(processingTimeout + watchdogExtra)
+	deadline := start.Add(procT + watchdogExtra)
 	doneSeen := false
 	k := 0 // number of send instructions resolved
 	var wg sync.WaitGroup
@@ -704,7 +707,7 @@ func (w *world) runScript(sc script) *runResult {
 			mon.instrs[idx].Resolve = st.Resolve
 			mon.logf("harness: instr#%d send FAILED (%s) -> UpdateBatch(err)", idx, st.Resolve)
 			mon.mu.Unlock()
-			if ok, dl, dsig := updateBatch(sm, mon, smCfg.MaxRetries, serr); !ok {
+			if ok, dl, dsig := updateBatch(sm, mon, smCfg.MaxRetries, procT, serr); !ok {
 				rr.deadlock, rr.deadlockSig, rr.watchdog = dl, dsig, dl == ""
 				mon.stopped.Store(true)
 				cancel()
@@ -755,7 +758,7 @@ func (w *world) runScript(sc script) *runResult {
 					deliver(rp, used, mon, prov, rs.Kind)
 				}(provs[j], rs)
 			}
-			if ok, dl, dsig := updateBatch(sm, mon, smCfg.MaxRetries, nil); !ok {
+			if ok, dl, dsig := updateBatch(sm, mon, smCfg.MaxRetries, procT, nil); !ok {
 				rr.deadlock, rr.deadlockSig, rr.watchdog = dl, dsig, dl == ""
 				mon.stopped.Store(true)
 				cancel()
@@ -833,7 +836,7 @@ var allKinds = []string{"ok", "nodeR", "nodeNR", "protoT", "protoP", "epoch", "s
 func genScript(id int, seed int64) script {
 	rng := vrand.Sub(seed, "c34-script", id)
 	modes := []string{"Stateless", "Stateful", "CrossValidation"}
-	sc := script{ID: id, Mode: modes[id%3], Class: classes[(id/3)%classMod], Variant: "policy-wrapped"}
+	sc := script{ID: id, Mode: modes[id%3], Class: classes[(id/3)%classMod], Variant: "policy-wrapped", ProcessingMs: int(processingTimeout / time.Millisecond)}
 	if rng.Intn(4) == 0 {
 		sc.Variant = "consumer-wrapper"
 	}
@@ -935,11 +938,13 @@ func genScript(id int, seed int64) script {
 			steps = append(steps, mkStep("S", []string{"silent"}))
 		}
 	case "pipeline-flood":
-		// a consumer loop that is slower than the hedge ticker for the whole request, sends failing twice out
-		// of three times (so neither the send-failure limit nor the attempt limit stops the hedges early)
-		for i := 0; i < 40; i++ {
-			st := mkStep([]string{"F", "F", "S"}[i%3], []string{"silent"})
-			st.ReadDelayMs = 22 + rng.Intn(25)
+		// a consumer loop that stays slower than the hedge ticker during a long request; three of four sends
+		// fail (so the send-failure limit never trips) and nobody answers: every hedge adds one more
+		// instruction -> UpdateBatch round trip to the pipeline between consumer loop and state machine
+		sc.ProcessingMs = 1500
+		for i := 0; i < 90; i++ {
+			st := mkStep([]string{"F", "F", "F", "S"}[i%4], []string{"silent"})
+			st.ReadDelayMs = 22 + rng.Intn(10)
 			st.ResolveDelayMs = 0
 			steps = append(steps, st)
 		}
@@ -974,7 +979,7 @@ func judge(run *ev.Run, rr *runResult) (nontrivialSig string) {
 	defer mon.mu.Unlock()
 	witness := func() map[string]any {
 		return map[string]any{"script": sc, "trace": mon.log,
-			"constants": map[string]int{"MaxRetries": rr.maxRetries, "SendRelayAttempts": rr.sendAtt, "relay_timeout_ms": int(relayTimeout / time.Millisecond), "processing_timeout_ms": int(processingTimeout / time.Millisecond)}}
+			"constants": map[string]int{"MaxRetries": rr.maxRetries, "SendRelayAttempts": rr.sendAtt, "relay_timeout_ms": int(relayTimeout / time.Millisecond), "processing_timeout_ms": sc.ProcessingMs}}
 	}
 	pathOf := func(i int) string {
 		// a send-failure retry re-emits the latest relay state; a policy retry creates a new one
@@ -1008,7 +1013,8 @@ func judge(run *ev.Run, rr *runResult) (nontrivialSig string) {
 		}
 	}
 	if rr.deadlock != "" {
-		run.Violation("final-instruction-never-reaches-consumer", sc.Mode+"/deadlock:"+rr.deadlockSig,
+		run.Count("deadlock_shape:"+rr.deadlockSig, 1)
+		run.Violation("final-instruction-never-reaches-consumer", sc.Mode+"/consumer-loop-parked-in-UpdateBatch(batch-update-channel-full)",
 			"the consumer loop (read instruction, send, UpdateBatch, read next) and the state machine wait for each other forever: "+rr.deadlock,
 			witness())
 		run.Count("deadlocks_proven", 1)
@@ -1291,7 +1297,7 @@ func TestC34(t *testing.T) {
 	run.Require("ticker hedges exercised", hedges > 0)
 	run.Require("all three selection modes run", len(perMode) == 3)
 
-	run.Finish("part 1: complete policy grid (see policy_grid); part 2: scripted runs of the real state machine with the consumer's config (relay timeout 20 ms, processing timeout 450 ms): per send instruction the script fixes how long the consumer loop takes to fetch it, whether the send fails / finds no pairing / succeeds, how long the send takes, and what every provider answers (success, retryable / non-retryable node error, transient / permanent protocol error, epoch mismatch, silence) after which delay; 14 script classes x 3 selection modes; a run is non-trivial when a stop rule's precondition became true in it (told about a success / non-retryable error, successful send in Stateful or CrossValidation, send-failure retries exhausted, maximum reached) or it retried at least once; distinct = distinct (mode, variant, per-send cause+resolution sequence, final kind, preconditions)",
+	run.Finish("part 1: complete policy grid (see policy_grid); part 2: scripted runs of the real state machine with the consumer's config (relay timeout 20 ms, processing timeout 450 ms, 1500 ms in the pipeline-flood class): per send instruction the script fixes how long the consumer loop takes to fetch it, whether the send fails / finds no pairing / succeeds, how long the send takes, and what every provider answers (success, retryable / non-retryable node error, transient / permanent protocol error, epoch mismatch, silence) after which delay; 14 script classes x 3 selection modes; a run is non-trivial when a stop rule's precondition became true in it (told about a success / non-retryable error, successful send in Stateful or CrossValidation, send-failure retries exhausted, maximum reached) or it retried at least once; distinct = distinct (mode, variant, per-send cause+resolution sequence, final kind, preconditions)",
 		run.Pick(60, 400),
 		"'after a successful result / non-retryable error' = after the state machine's main loop was itself told so by its results summary (exact emission index taken inside that call); results still queued behind other select cases are concurrent, not 'before'",
 		"configured maximum = MaxRetries relays actually sent; allowed send-failure retries = SendRelayAttempts consecutive failed sends",
